@@ -69,13 +69,13 @@ pub fn gen(tier: Tier, rng: &mut Rng) -> Vec<Sx> {
         for a in &small { for b in &small { for c in &small { for d in &small { for e in &small {
             v.push(Sx::l(vec![Sx::n(0), Sx::l(vec![a.clone(), b.clone(), c.clone(), d.clone(), e.clone()])])); } } } } }
     }
-    let n = if tier == Tier::Thorough { 200000 } else { 10000 };
+    let n = if tier == Tier::Thorough { 60000 } else { 10000 };
     for _ in 0..n {
         let len = rng.range(3, 8) as usize;
         v.push(Sx::l(vec![Sx::n(0), Sx::l((0..len).map(|i| rand_op(rng, i as i64, false)).collect())]));
     }
     // concurrent histories: 3 threads x 4 ops on one shared KnowledgeBase, after a short prefix
-    let nc = if tier == Tier::Thorough { 40000 } else { 1500 };
+    let nc = if tier == Tier::Thorough { 8000 } else { 1500 };
     for _ in 0..nc {
         let pre: Vec<Sx> = (0..rng.below(3)).map(|i| rand_op(rng, 50 + i as i64, false)).collect();
         let progs: Vec<Sx> = (0..3).map(|t| Sx::l((0..4).map(|i| rand_op(rng, (t * 10 + i) as i64, true)).collect())).collect();
